@@ -20,6 +20,8 @@ import weakref
 from desper.events import EventDispatcher, event_handler
 from desper.logic.world import World
 
+from harness.hb_util import HarnessBug
+
 PROPERTY = 'C10'
 
 
@@ -251,19 +253,31 @@ def h_weak(sp, k=2, world=True, cfgs=None, diag=False, drops=True, defer=(0,)):
     sp.note('drops before: %r   drops between the dispatches: %r' % (pre, mid))
     if any(kill):
         sp.cover('kill-relation')
-    orders = set()
-    live0 = None
-    for perm in itertools.permutations(range(k)):
-        what = 'creation order %r' % (list(perm),)
+    # Schedule coverage: the program is run again and again (first once per creation order of the handlers) until
+    # every order of the listeners alive at the first dispatch has been exercised.  With referent hashing the slot
+    # constants make the k! creation orders produce the k! listener orders; a dispatcher that hashes its weak
+    # references by identity produces orders that depend on addresses, then a few more runs (with some garbage
+    # kept alive in between to move the addresses) are needed.  Every run is a complete, fully judged program.
+    perms = list(itertools.permutations(range(k)))
+    orders, need, junk, t = set(), None, [], 0
+    while True:
+        perm = perms[t % len(perms)]
+        what = 'run %d, creation order %r' % (t, list(perm))
         sp.note(what)
         order = run_program(sp, world, cfg, kill, pre, mid, perm, what, dmode)
         orders.add(order)
-        live0 = set(order)
-    # schedule coverage: every order of the listeners alive at the first dispatch was exercised
-    need = set(itertools.permutations(sorted(live0)))
-    if orders != need:
-        raise RuntimeError('listener orders exercised %r, needed %r: slot hashing does not control the order'
-                           % (sorted(orders), sorted(need)))
+        if need is None:
+            need = set(itertools.permutations(sorted(order)))
+        t += 1
+        if t >= len(perms) and orders == need:
+            break
+        if t >= 80 * len(perms) or not orders <= need:
+            raise HarnessBug('listener orders exercised %r after %d runs, needed %r: the listener order is not '
+                             'under control' % (sorted(orders), t, sorted(need)))
+        if t >= len(perms):
+            junk.append([K(0, -1) for _ in range(1 + t % 3)])
+    if t > len(perms):
+        sp.cover('extra-runs-for-listener-orders')
     if len(need) > 1:
         sp.cover('all-listener-orders')
     sp.done()
